@@ -424,7 +424,12 @@ pub fn c05(a: &Args) {
             let nd = 1 + r.below(3);
             let docs: Vec<Value> = (0..nd).map(|_| {
                 let budget = 2 + r.below(24);
-                let d = document(&mut r, &g, &root, budget);
+                let mut d = document(&mut r, &g, &root, budget);
+                // every seventh session has damaged documents: whatever the outcome is (an error, a rendering of what
+                // the reader accepted), it has to be the same every time
+                if s % 7 == 6 {
+                    d = damage(&mut r, &d);
+                }
                 json!({"hex": hex(&d), "cfg": {}})
             }).collect();
             extra_cases.push(json!({"docs": docs, "expect": {"st": "ok"}}));
